@@ -19,7 +19,9 @@ import (
 	v1 "github.com/fatedier/frp/pkg/config/v1"
 
 	"verif/mc/drv"
+	"verif/mc/peek"
 	"verif/mc/vs"
+	"verif/mc/vs/vnet"
 	sw "verif/mc/worlds/srvworld"
 	tw "verif/mc/worlds/tunworld"
 )
@@ -305,6 +307,9 @@ func scXTCP(allow, vuser, proxy, sign string, precheck bool) func(x *vs.Exec) {
 		// whatever happened, no session state survives completion / timeout
 		time.Sleep(120 * time.Second)
 		w.Quiesce()
+		if n := peek.F(w.Svc, "rc.NatHoleController.sessions").Len(); n != 0 {
+			vs.Fail("%d NAT-hole session(s) still in the server's table 120 s after a request (proxy=%s sign=%s user=%q allow=%s precheck=%v)", n, proxy, sign, vuser, allow, precheck)
+		}
 		w.Teardown()
 	}
 }
@@ -400,7 +405,7 @@ func scRealVisitor(flags string) func(x *vs.Exec) {
 			vs.Fail("realvisitor %s: cannot reach the visitor's port: %v", flags, err)
 			return
 		}
-		exchange := func(tag string) bool {
+		exchange := func(u *vnet.StreamConn, tag string) bool {
 			m := []byte("<<" + tag + " " + strings.Repeat("y", 900) + ">>")
 			if _, err := u.Write(m); err != nil {
 				vs.Fail("real visitor (flags %s): user write (%s) failed: %v", flags, tag, err)
@@ -417,9 +422,24 @@ func scRealVisitor(flags string) func(x *vs.Exec) {
 			}
 			return true
 		}
-		if exchange("before the pause") {
+		if exchange(u, "before the pause") {
 			vs.BlockFor("pause", 75*time.Second, func() bool { return false })
-			exchange("after 75 s of silence")
+			exchange(u, "after 75 s of silence")
+		}
+		// streams that overlap in time: a second user while the first stream is open, both used in turn, the first
+		// closed, a third opened — each stream carries its own bytes only
+		if u2, err := w.H.DialFrom("10.8.3.2:4201", "127.0.0.1:6000"); err != nil {
+			vs.Fail("realvisitor %s: second user cannot reach the visitor's port: %v", flags, err)
+		} else if exchange(u2, "second user, first stream open") && exchange(u, "first user again") && exchange(u2, "second user again") {
+			u.Close()
+			w.Quiesce()
+			if u3, err := w.H.DialFrom("10.8.3.3:4202", "127.0.0.1:6000"); err != nil {
+				vs.Fail("realvisitor %s: third user cannot reach the visitor's port: %v", flags, err)
+			} else {
+				_ = exchange(u3, "third user, after the first stream was closed") && exchange(u2, "second user a third time") && exchange(u3, "third user again")
+				u3.Close()
+			}
+			u2.Close()
 		}
 		u.Close()
 		w.Quiesce()
